@@ -249,6 +249,11 @@ def classify(component, what, case):
             if blocks and all("lyd_diff_apply_r" in b and "lyd_dup" in b and "lyd_diff_merge" not in b and "lyd_diff_reverse" not in b
                               for b in blocks):
                 return "F131"
+        # F133: lyd_diff_is_redundant() reads the orig-default metadata of a 'none' leaf / leaf-list node without checking that
+        # it exists (assert only); reached when a diff of a moved state list instance (C06: whole subtree under 'replace',
+        # children without operation) is merged
+        if "lyd_diff_is_redundant" in st and "null pointer" in st and "lyd_diff_merge_r" in st:
+            return "F133"
         return None
     if law == "reverse":
         # F15(b): a reversed delete of (or above) a user-ordered instance is a create without key/value/position anchor
@@ -296,10 +301,12 @@ def schema_line(i, s):
 
 
 def run_impl(cx, schemas, lines):
+    """the request lines with the schema registrations in front; a harness that was restarted after a crash has lost its
+    schemas: what it answered with NoSchema is run again (until nothing is lost any more)"""
     head = [schema_line("S%d" % i, s) for i, s in enumerate(schemas)]
     rep = cx.run_impl(HARNESS, head + lines, component=COMP, env=ENV)
-    for _ in range(3):
-        lost = [l for l in lines if rep.get(l.split()[0], [None, None])[:2] == ["err", "NoSchema"]]
+    for _ in range(60):
+        lost = [l for l in lines if rep.get(l.split()[0], [None, None])[:2] in (["err", "NoSchema"], ["err", "NotRun"])]
         if not lost:
             break
         rep.update(cx.run_impl(HARNESS, head + lost, component=COMP, env=ENV))
@@ -636,16 +643,20 @@ def run(cx):
             "exhaustive user-ordered pairs (reverse) and tiny per-node state spaces (merge); non-trivial = distinct request whose "
             "diff is not empty")
     rng = cx.sub_rng("schemas")
-    nsch = cx.n(24, 120)
-    per = cx.n(36, 400)
+    nsch = cx.n(24, 72)
+    per = cx.n(36, 220)
     schemas = [tg.gen_schema(rng, i, max_depth=rng.choice([2, 3, 3])) for i in range(nsch)]
     # the fragment of the theorems: no user-ordered and no state nodes at all
-    schemas += [tg.gen_schema(rng, 1000 + i, max_depth=rng.choice([2, 3, 3]), userord=False, state=False) for i in range(cx.n(10, 60))]
-    cases = load_corpus(cx)
-    for i, s in enumerate(schemas):
-        cases += gen_triples(cx, s, cx.sub_rng("triples%d" % i), per)
-    all_schemas = list({id(c.s): c.s for c in cases}.values())
-    process(cx, all_schemas, cases, tag="rand")
+    schemas += [tg.gen_schema(rng, 1000 + i, max_depth=rng.choice([2, 3, 3]), userord=False, state=False) for i in range(cx.n(10, 36))]
+    corpus = load_corpus(cx)
+    process(cx, list({id(c.s): c.s for c in corpus}.values()), corpus, tag="corpus", laws_every=1)
+    # schema by schema in chunks (bounded memory; every chunk is one harness / driver process each)
+    chunk = 12
+    for lo in range(0, len(schemas), chunk):
+        cases = []
+        for i, s in enumerate(schemas[lo:lo + chunk]):
+            cases += gen_triples(cx, s, cx.sub_rng("triples%d" % (lo + i)), per)
+        process(cx, schemas[lo:lo + chunk], cases, tag="rand%d" % lo)
     exhaustive_reverse(cx)
     exhaustive_merge(cx)
     cx.exhaustive = True
@@ -760,7 +771,13 @@ def load_corpus(cx):
         j = json.load(open(os.path.join(d, fn)))
         s = ReplaySchema(j["schema_dsl"], j["schema_yang"])
         for t in j["triples"]:
-            c = Case(s, tg.parse_dump(s, t[0]), tg.parse_dump(s, t[1]), tg.parse_dump(s, t[2]) if len(t) > 2 else None, "corpus")
+            if j.get("built"):
+                # dumps of validated trees (default nodes and flags included): used as they are
+                c = Case(s, None, None, None, "corpus")
+                c.a, c.b = tg.hx(t[0].encode()), tg.hx(t[1].encode())
+                c.c = tg.hx(t[2].encode()) if len(t) > 2 else None
+            else:
+                c = Case(s, tg.parse_dump(s, t[0]), tg.parse_dump(s, t[1]), tg.parse_dump(s, t[2]) if len(t) > 2 else None, "corpus")
             out.append(c)
     return out
 
